@@ -88,8 +88,8 @@ def model_splitparen(model, line, popen, pclose):
 
 
 # which lookup discipline of the model to compare with: "" = the model's own switch
-# (`Fp.Splitline.discipline`, the code as it is in /repo); "repaired" is used only by the
-# development-time run against a scratch tree carrying the proposed fix (FV_REPO=...).
+# (`Fp.Splitline.discipline`, the mirror of /repo HEAD); "legacy" = the code before the fixes
+# 979b666/c764ae8 (development-time run against an old checkout, FV_REPO=...).
 DISCIPLINE = ""
 
 
@@ -467,7 +467,7 @@ def main(argv=None):
     ap.add_argument("--seed", type=int, default=0)
     ap.add_argument("--n", type=int, default=20000)
     ap.add_argument("--exe", default=None, help="path of the fpmodel driver (default: built tree)")
-    ap.add_argument("--discipline", default="", choices=["", "current", "repaired"],
+    ap.add_argument("--discipline", default="", choices=["", "legacy", "repaired"],
                     help="force the model's rev_string_map lookup discipline (development only)")
     a = ap.parse_args(argv)
     global DISCIPLINE
